@@ -66,7 +66,7 @@ def content(d):
 @fpheap.with_heap_cases(("eq", "repr"), 150, 3000)
 class C09(vlib.Check):
     id = "C09"
-    props_modules = ["E3fpVerif.Props.C09", "E3fpVerif.Props.C09Db"]
+    props_modules = ["E3fpVerif.Props.C09", "E3fpVerif.Props.C09Db", "E3fpVerif.Props.C09Heap"]
     gen_items = ["fprint_fold"]
     rule = ("pairs and triples built from a seeded fingerprint and its near variants (equal, subset, superset, level, bits, "
             "one count, one float count changed by a factor 1+2^-k for k in {16,17,20,40}, other kind), compared with ==/!= in both directions; copies (from_fingerprint, pickle, conversion "
@@ -77,6 +77,14 @@ class C09(vlib.Check):
     def gen_cases(self):
         rng = self.rng
         n = 120 if self.tier == "quick" else 2500
+        # database equality: a database, its copies (copy, conversion with copy, pickle, savez+load, rebuilt from the same
+        # fingerprints) and read-only use of one of them in between (look-ups incl. absent names, iteration, refused subsets)
+        for _ in range(40 if self.tier == "quick" else 600):
+            kind = rng.choice(KINDS)
+            bits = rng.choice([32, 1024, 2 ** 32])
+            self.count("db-equality")
+            yield {"t": "dbeq", "kind": kind, "bits": bits, "n": rng.randint(1, 6), "seed": rng.randrange(10 ** 6),
+                   "reads": [rng.choice(["absent", "absent", "name", "index", "iter", "subset-absent", "contains", "density", "eq"]) for _ in range(rng.randint(1, 4))]}
         for _ in range(n):
             f = gen_fp(rng, bits=rng.choice([1, 8, 32, 1024, 2 ** 20, 2 ** 32]), maxn=10)
             vs = variants(rng, f)
@@ -103,6 +111,8 @@ class C09(vlib.Check):
     # ------------------------------------------------------------------
     def impl(self, case):
         t = case["t"]
+        if t == "dbeq":
+            return {"ok": "see prop"}
         if t == "pair":
             a, b = make_fp(case["a"]), make_fp(case["b"])
             return {"eq": attempt(lambda: bool(a == b)), "ne": attempt(lambda: bool(a != b)),
@@ -123,6 +133,8 @@ class C09(vlib.Check):
 
     def model_ops(self, case):
         t = case["t"]
+        if t == "dbeq":
+            return [{"op": "fpr.hash", "words": []}]
         if t == "pair":
             a, b = case["a"], case["b"]
             return [{"op": "fp.eq", "a": a, "b": b}, {"op": "fp.ne", "a": a, "b": b},
@@ -136,6 +148,8 @@ class C09(vlib.Check):
 
     def model_answer(self, case, answers):
         t = case["t"]
+        if t == "dbeq":
+            return {"ok": "see prop"}
         if t == "pair":
             return dict(zip(["eq", "ne", "eq_rev", "ne_rev"], answers))
         if t == "triple":
@@ -144,8 +158,69 @@ class C09(vlib.Check):
         return {"copy": answers[0]}
 
     # ------------------------------------------------------------------ property
+    def _prop_dbeq(self, case):
+        import os
+        import random
+        import tempfile
+        from e3fp.fingerprint.db import FingerprintDatabase
+        rr = random.Random(case["seed"])
+        specs = [gen_fp(rr, case["kind"], case["bits"], level=5, maxn=8) for _ in range(case["n"])]
+        for sp in specs:
+            if sp["kind"] == "count":
+                sp["cnt"] = [[i, v if int(v) <= 255 else "255"] for i, v in sp["cnt"]]
+        names = [rr.choice(["a", "b", "c", "a"]) + ("_%d" % j if rr.random() < 0.5 else "") for j in range(len(specs))]
+
+        def build():
+            db = FingerprintDatabase(fp_type=CLS[case["kind"]], level=5, name="D")
+            fps = [make_fp(sp) for sp in specs]
+            for f, nm in zip(fps, names):
+                f.name = nm
+            db.add_fingerprints(fps)
+            return db
+        db = build()
+        others = {"rebuilt": build(), "copy": copy.copy(db), "as_type": db.as_type(CLS[case["kind"]], copy=True),
+                  "pickle": pickle.loads(pickle.dumps(db))}
+        fd, p = tempfile.mkstemp(suffix=".fpz", dir=vlib.WORK)
+        os.close(fd)
+        try:
+            db.savez(p)
+            others["savez"] = FingerprintDatabase.load(p)
+        finally:
+            os.remove(p)
+        for r in case["reads"]:
+            try:
+                if r == "absent":
+                    db["no-such-name"]
+                elif r == "name":
+                    db[names[0]]
+                elif r == "index":
+                    db[0], db[-1]
+                elif r == "iter":
+                    list(db)
+                elif r == "subset-absent":
+                    db.get_subset([names[0], "no-such-name"])
+                elif r == "contains":
+                    "no-such-name" in db.fp_names
+                elif r == "density":
+                    db.get_density()
+                elif r == "eq":
+                    db == others["copy"]
+            except Exception:  # noqa: BLE001
+                pass
+        for label, o in others.items():
+            try:
+                res = [bool(db == o), bool(o == db), bool(db != o)]
+            except Exception as e:  # noqa: BLE001
+                return {"key": "db-eq-raises:" + type(e).__name__, "what": "comparing a database with its %s raised %r" % (label, e)}
+            if res != [True, True, False]:
+                return {"key": "db-eq-wrong:after-reads:" + label,
+                        "what": "after the read-only calls %s a database no longer equals its %s (==, reflected ==, != give %s)" % (case["reads"], label, res)}
+        return None
+
     def prop(self, case):
         t = case["t"]
+        if t == "dbeq":
+            return self._prop_dbeq(case)
         if t == "pair":
             a, b = case["a"], case["b"]
             same_family = (a["kind"] == "bit") == (b["kind"] == "bit")
